@@ -682,4 +682,59 @@ def gen(seed, tier):
     for depth in (126, 127, 128, 129):
         add("PX-nest", "PX 10 " + hx(b"d1:a" + nest_value("l", depth) + b"5:added6:\1\2\3\4\0\x50e"))
         add("PX-nest", "PX 10 " + hx(b"d5:added" + nest_value("d", depth) + b"e") + " " + hx(b"d5:added6:\1\2\3\4\0\x50e"))
+    # ---- PeerList with PeerInfo entries: the existing-PeerInfo branch of insert_available
+    NOW = 400 * 86400
+    for _ in range(400 if not thorough else 5000):
+        pool4 = [rb(r, 4) for _ in range(3)] + [b"\x7f\0\0\1", b"\1\2\3\4"]
+        pool6 = [rb(r, 16) for _ in range(2)] + SPECIAL6[1:3]
+        now = r.choice([NOW, NOW, NOW, 2 ** 32 + 100, 2 ** 32 - 1, 700])
+        ops = []
+        known = []
+        for _ in range(r.randrange(1, 4)):          # some known peers first
+            if r.random() < 0.75:
+                ip = r.choice(pool4)
+                rec = ip + struct.pack(">H", r.choice([0, 0, 6881, 80, 1]))
+            else:
+                ip = r.choice(pool6)
+                rec = ip + struct.pack(">H", r.choice([0, 6881]))
+            ops.append("I %s %d" % (hx(rec), r.choice([0, 0, 1])))
+            known.append(ip)
+        for _ in range(r.randrange(2, 7)):
+            x = r.random()
+            if x < 0.3 and known:
+                ip = r.choice(known)
+                lh = r.choice([0, now % 2 ** 32, (now - 599) % 2 ** 32, (now - 600) % 2 ** 32, (now - 601) % 2 ** 32,
+                               2 ** 32 - 1, 2 ** 32 - 600, 2 ** 32 - 601, (now + 5) % 2 ** 32])
+                ops.append("S %s %d %d" % (ip.hex(), r.choice([0, 0, 1]), lh))
+            elif x < 0.38:
+                ops.append("N %d" % r.choice([now, now + 600, now + 601, now + 599, 2 ** 32 + 7, 5]))
+            elif x < 0.45:
+                ip = r.choice(pool4)
+                ops.append("I %s %d" % (hx(ip + struct.pack(">H", r.choice([0, 6881, 2]))), r.choice([0, 1])))
+                known.append(ip)
+            else:
+                k = r.choice("TTTXBR")
+                c4 = compact4(r, r.randrange(0, 7), r.choice([0, 0, 3]), pool4)
+                c6 = compact6(r, r.randrange(0, 3), r.choice([0, 0, 7]), pool6) if r.random() < 0.4 else b""
+                ops.append("X " + hx(c4) if k == "X" else "%s %s %s" % (k, hx(c4), hx(c6)))
+        add("PI", "PI %d %d " % (r.choice([1, 2, 3, 5, 8, 1000, 1000]), now) + " ".join(ops))
+    # ---- TrackerHttp with a second address family pending: the real send_event(), then up to two replies
+    okb = benc(("M", [(b"interval", 1800), (b"peers", compact4(r, 2))]))
+    for ev in range(0, 4):
+        for b1 in (okb, b"xx", b"d14:failure reason3:bade", b"de", b"d5:peers0:e", b""):
+            for b2 in (okb, b"le", b"d14:failure reasoni1ee", b"de", None):
+                add("H2-hand", "H2 %d %s %s" % (ev, hx(b1), hx(b2) if b2 is not None else "~"))
+    for _ in range(300 if not thorough else 4000):
+        bs = []
+        for _ in range(2):
+            body = http_body(r)
+            x = r.random()
+            if x < 0.2:
+                body = body[:r.randrange(len(body) + 1)]
+            elif x < 0.3:
+                body = rb(r, r.randrange(0, 12))
+            bs.append(hx(body))
+        if r.random() < 0.15:
+            bs[1] = "~"
+        add("H2-rand", "H2 %d %s %s" % (r.randrange(0, 4), bs[0], bs[1]))
     return cases, stats
